@@ -557,7 +557,12 @@ def ka_range(lo, hi, step):
     curr = lo
     while dispatch("<=", (curr, hi)):
         result.append(curr)
-        curr = dispatch("+", (curr, step))
+        nxt = dispatch("+", (curr, step))
+        if not dispatch("<", (curr, nxt)):
+            # A float step can be too small to change curr at all
+            # (1e16 + 0.5 == 1e16): the loop would never end.
+            raise FunctionArgError(f"Step size of range ({step}) is too small to advance from {curr}.")
+        curr = nxt
     return Array(result)
 
 register_function(ka_range, "range", (Number, Number, Number),
